@@ -15,8 +15,9 @@ RULE = ('every assignment of up to 3 (thorough 4) recordings to the categories O
         'early abandonment of one generator } x cassette {memory, file, S3(fake)}; journal of playback-function / extractor / comparator '
         'invocations tagged with the category whose tuning created them. states = distinct (selection, consumption prefix) journals. '
         'Non-trivial = at least two categories selected.')
-ASSUMPTIONS = ['in-process execution (dedicated-process routing is C08)', 'lookup start date = now - 1 day on the real clock (time windows are C16)']
+ASSUMPTIONS = ['in-process execution (dedicated-process routing is C08)', 'lookup start date = now - 1 day on a fixed harness clock (time windows are C16)']
 CATS = ['Op', 'OpX', 'Op_X']
+NOW = datetime.datetime(2020, 3, 1, 12, 0)
 PROG = {'steps': [{'fn': 'in_a', 'a': ['x1'], 'ret': 'vlst'}, {'fn': 'out_a', 'a': ['x2'], 'ret': 'v1'}]}
 
 
@@ -61,7 +62,10 @@ def gen_cases(tier, seed):
 
 def run_case(case):
     import pytz
-    box = cassettes.Box(case['cas'], clock=lambda: datetime.datetime.now(pytz.utc)) if case['cas'] == 's3' else cassettes.Box(case['cas'])
+    from mc import fakes3
+    if case['cas'] == 's3':   # the S3 cassette and the bucket follow one fixed harness clock (no dependence on the real date / time zone)
+        fakes3.install_s3_clock(lambda: NOW)
+    box = cassettes.Box(case['cas'], clock=lambda: pytz.utc.localize(NOW)) if case['cas'] == 's3' else cassettes.Box(case['cas'])
     try:
         return _run(case, box)
     finally:
@@ -122,7 +126,7 @@ def _run(case, box):
         exp_cats = sorted({CATS[case['assign'][i]] for i in case['perm']})
         exp_ids = {c: [rid for rid in sel if rid in by_cat[c]] for c in exp_cats}
     else:
-        props = RecordingLookupProperties(start_date=datetime.datetime.utcnow() - datetime.timedelta(days=1), limit=case['limit'])
+        props = RecordingLookupProperties(start_date=NOW - datetime.timedelta(days=1), limit=case['limit'])
         order = ['OpX', 'Op', 'Op_X']
         studio = PlaybackStudio(order, Tuner(), env.tr, lookup_properties=props)
         exp_cats = order
